@@ -13,12 +13,12 @@ RULE = ("synthetic files (3D all layouts, irregular, 2D) x argument tuples with 
 def run(ctx):
     model = core.Model()
     rng = gen.rng_for(ctx.seed, 'c14')
-    n_files = 60 if ctx.quick else 1500
+    n_files = ctx.n(60, 1500)
     try:
         for fi in files.read_files(ctx, rng, n_files, max_voxels=20_000):
             s = readcheck.ReadSession(fi)
             try:
-                ops = readcheck.out_of_range_ops(rng, fi, 2 if ctx.quick else 5) + readcheck.in_range_ops(rng, fi, 1)
+                ops = readcheck.out_of_range_ops(rng, fi, ctx.n(2, 5)) + readcheck.in_range_ops(rng, fi, 1)
                 ops += [('hdr', int(t)) for t in rng.integers(0, fi.tracecount, size=2)]
                 readcheck.check_ops(ctx, model, s, ops, props=('C14', 'C02'))
                 # the same header ordinals again on a reader that has first fetched whole tracefield arrays (and, once,
